@@ -186,6 +186,17 @@ Theorem reseed_at_leaf_refuted :
 Proof. exact reseed_leaf_refuted. Qed.
 Print Assumptions reseed_at_leaf_refuted.
 
+(* without `2 <= number of children of the seed`: re-seeding ((A:1,B:1,C:1):1) at its inner node
+   turns the old seed into a taxon-less leaf (the vertex had degree one before, too; the leaf LIST
+   changes) *)
+Theorem seed_unifurcation_refuted :
+  exists t r n upd coll supp t' r',
+    reseed_at t r n upd coll supp = Ok (t', r')
+    /\ is_internal_node n t /\ NoDup (leaf_taxa t) /\ uniform_lengths t
+    /\ ~ Permutation (leaf_taxa t) (leaf_taxa t').
+Proof. exact seed_unif_refuted. Qed.
+Print Assumptions seed_unifurcation_refuted.
+
 (* ============ 4. where the new root is ============ *)
 (* reroot_at_midpoint with the pair (a, b): in the result (half units) both are at distance
    D = dist a b / 2 from the root; if (a, b) was a most distant pair of t it is one of t' *)
